@@ -183,6 +183,17 @@ func runC16(c *core.Ctx, ck *Check) {
 				parts[x] = versOps[r.IntN(len(versOps))] + p.Strs[chain[pick[x]]]
 			}
 			base := "vers:" + j.scheme + "/" + strings.Join(parts, "|")
+			// the same constraint text is first seen under two OTHER schemes: state that survives between calls
+			// (a cache keyed on the constraint text) must not leak into this scheme's evaluation
+			if b%2 == 0 {
+				for x := 0; x < 2; x++ {
+					other := Schemes[r.IntN(len(Schemes))]
+					if other != j.scheme {
+						eco.SafeVersContains("vers:"+other+"/"+strings.Join(parts, "|"), p.Strs[r.IntN(len(p.Strs))])
+						w.Count("foreign_scheme_pretouches", 1)
+					}
+				}
+			}
 			if _, err, pn := eco.SafeVersContains(base, p.Strs[0]); pn != nil || err != nil {
 				w.Count("base_not_accepted", 1)
 				continue
